@@ -311,6 +311,18 @@ def code_flags(repo, unparsed):
         unparsed.append({'item': 'flags.omegaNeedsQuantity', 'why': 'omega-domain special cases not found in __compat_add__'})
         guarded = False
     flags['omegaNeedsQuantity'] = guarded
+    # units.py: does simplify_units fold Hz into 1/s for units without a named equivalent?
+    ut = ast.parse(open(os.path.join(lc, 'units.py')).read())
+    f = method_of(ut, 'Units', 'simplify_units')
+    fold = False
+    if f:
+        for st in f.body:
+            if isinstance(st, ast.If) and '_mapping' in ast.unparse(st.test):
+                body = ast.unparse(st)
+                fold = ('.subs(' in body or '.replace(' in body or '.xreplace(' in body) and 'Hz' in body
+    else:
+        unparsed.append({'item': 'flags.canonFoldsHertz', 'why': 'Units.simplify_units not found'})
+    flags['canonFoldsHertz'] = fold
     return flags
 
 
@@ -534,8 +546,9 @@ def generate(repo='/repo'):
     w('')
     w('/-- structural facts read from the operator code (expr.py, impedancemixin.py, admittancemixin.py) -/')
     w('def codeFlags : Flags :=')
-    w('  { divRestoresUnits := %s, powSetsUnits := %s, recipSetsUnits := %s, omegaNeedsQuantity := %s }' % tuple(
+    w('  { divRestoresUnits := %s, powSetsUnits := %s, recipSetsUnits := %s, omegaNeedsQuantity := %s,' % tuple(
         lean_b(flags[k]) for k in ('divRestoresUnits', 'powSetsUnits', 'recipSetsUnits', 'omegaNeedsQuantity')))
+    w('    canonFoldsHertz := %s }' % lean_b(flags['canonFoldsHertz']))
     w('')
     w('def tables : Tables :=')
     w('  { mul := mulTable, div := divTable, classes := classTable, domains := domainTable,')
